@@ -10,7 +10,8 @@ PROPERTY = "C08"
 RULE = ("product abstraction instantiated with concrete users/ids: room versions 1-11 x "
         "{membership transitions: event membership (6) x self/other x sender membership (6+absent) "
         "x target membership x join rule (7+absent) x power levels absent/present x sender level "
-        "below/at/above the relevant threshold x target level below/at/above the sender; restricted "
+        "below/at/above the relevant threshold x target level below/at/above the sender x (for kicks "
+        "/ unbans) the ban threshold below/at/above the kick threshold; restricted "
         "and knock_restricted joins x authoriser membership x authoriser level; creator's first "
         "join x prev_events shapes; third-party invites (14 cases with real Ed25519 signatures); "
         "ordinary message / state / @-state-key / third_party_invite / aliases / redaction events "
@@ -19,7 +20,10 @@ RULE = ("product abstraction instantiated with concrete users/ids: room versions
         "events / notifications / users entry added, raised, lowered, removed around the sender's "
         "level, malformed new content; create events; federation flag}. quick: a stratified "
         "sample; thorough: the whole product, plus a second instantiation with randomised "
-        "identifiers. evaluations = triples judged; distinct_nontrivial = distinct triples decided "
+        "identifiers. Plus a random family (quick 40,000, thorough 600,000 triples): every power-level "
+        "field independently absent or drawn from {0,10,25,40,41,50,75,100}, random users / events "
+        "maps, memberships, join rules and candidate events (members, messages, state, power-level "
+        "edits, redactions, third-party invites), so that thresholds differ from each other. evaluations = triples judged; distinct_nontrivial = distinct triples decided "
         "by a rule other than the final 'allow'")
 ASSUMPTIONS = ["vt/ref/auth.py transcribes the spec's authorization rules (DESIGN appendix A lists "
                "the readings taken where the text is ambiguous)",
